@@ -542,7 +542,7 @@ def width_actual(ck, F, rule="WIDTH-ACTUAL"):
             if not (q.endswith("Worksheet::set_column_width") or q.endswith("Worksheet::set_column_width_and_style")) or c not in F.heads:
                 continue
             cb = F.body(c)
-            idx = [i for i in range(1, cb.nargs + 1) if cb.local_name(i) == "width"]
+            idx = [i for i in range(1, cb.nargs + 1) if cb.locals[i] == "f64"]      # the width is the f64 parameter
             if not idx or idx[0] - 1 >= len(t["args"]):
                 continue
             sr = sources(b, t["args"][idx[0] - 1])
